@@ -305,3 +305,55 @@ func ZZ_C06_noPods() {
 	zzC06Narrow = false
 	zzC06(0)
 }
+
+// ZZ_C06_anyWaitingContainer: "a canary pod ... is stuck in an image/config/hook start error ... or is
+// still creating its containers after maxSlowStartDuration" — a pod has several containers (regular and
+// init) and any of them may be the one that is stuck, whatever the others wait for.  One canary pod
+// started ten minutes ago, maxSlowStartDuration one minute, auto-pause on, auto-fail on with default
+// thresholds; container "first" runs or waits with an unrelated reason, container "second" — a regular
+// or an init container — runs or waits in a start error or in ContainerCreating.  The canary is paused
+// exactly when some container is in the cannot-start set or still creating.
+func ZZ_C06_anyWaitingContainer() {
+	ds := zzDaemonset(map[string]string{})
+	on := true
+	ds.Spec.Strategy.Canary = &datadoghqv1alpha1.ExtendedDaemonSetSpecStrategyCanary{
+		AutoPause: &datadoghqv1alpha1.ExtendedDaemonSetSpecStrategyCanaryAutoPause{Enabled: &on, MaxSlowStartDuration: &metav1.Duration{Duration: time.Minute}},
+	}
+	datadoghqv1alpha1.DefaultExtendedDaemonSetSpec(&ds.Spec, datadoghqv1alpha1.ExtendedDaemonSetSpecStrategyCanaryValidationModeAuto)
+	rs := zzReplicaSet()
+	params := &Parameters{
+		EDSName: zzEDSName, Strategy: &ds.Spec.Strategy, Replicaset: rs, ReplicaSetStatus: string(ReplicaSetStatusCanary),
+		NewStatus:  rs.Status.DeepCopy(),
+		NodeByName: map[string]*NodeItem{}, PodByNodeName: map[*NodeItem]*corev1.Pod{},
+	}
+	ni := NewNodeItem(&corev1.Node{ObjectMeta: metav1.ObjectMeta{Name: zzNodeName(0)}}, nil)
+	params.NodeByName[ni.Node.Name] = ni
+	params.CanaryNodes = []string{ni.Node.Name}
+	p := zzPod(0, zzHashNew, 1, true, nondet.Base().Add(-10*time.Minute))
+	st := metav1.NewTime(nondet.Base().Add(-10 * time.Minute))
+	p.Status.StartTime = &st
+	mk := func(name, reason string) corev1.ContainerStatus {
+		cs := corev1.ContainerStatus{Name: name}
+		if reason != "" {
+			cs.State.Waiting = &corev1.ContainerStateWaiting{Reason: reason}
+		}
+		return cs
+	}
+	first := nondet.String("first.waiting", "", "PodInitializing", "CrashLoopBackOff")
+	second := nondet.String("second.waiting", "", "ImagePullBackOff", "CreateContainerConfigError", "ContainerCreating", "PodInitializing")
+	p.Status.ContainerStatuses = []corev1.ContainerStatus{mk("first", first)}
+	if nondet.Bool("secondIsAnInitContainer") {
+		p.Status.InitContainerStatuses = []corev1.ContainerStatus{mk("second", second)}
+	} else {
+		p.Status.ContainerStatuses = append(p.Status.ContainerStatuses, mk("second", second))
+	}
+	params.PodByNodeName[ni] = p
+
+	res := manageCanaryStatus(map[string]string{}, params, nondet.Base())
+
+	stuck := zzCannotStart[first] || zzCannotStart[second] || first == "ContainerCreating" || second == "ContainerCreating"
+	nondet.Assert("C06.any-container.paused-exactly-when-some-container-is-stuck", res.IsPaused == stuck)
+	nondet.Assert("C06.any-container.not-failed", !res.IsFailed)
+	nondet.Observe("isPaused", res.IsPaused)
+	nondet.Reach("C06.any-container.init-container-stuck-behind-a-waiting-one", res.IsPaused && first == "PodInitializing" && zzCannotStart[second])
+}
